@@ -2,7 +2,7 @@
 import numpy as np
 import gen
 import spec
-from props.common import load_impl, make_prov, exc_name, truth_table_impl, rand_slice, slice_json
+from props.common import load_impl, make_prov, exc_name, truth_table_impl, rand_slice, slice_json, rand_keys, rand_ckeys
 
 RULE = ("random DNF containers x (fork by random repeat vectors incl. 0; selection by slice (bounds open / in range / negative / out of range on either side, "
         "steps open, positive and NEGATIVE: p[::-1], p[3::-1], p[::-2], p[2:-100:-1], p[-100:100:2] ...; also applied to the result of a fork) / index list or array / "
@@ -29,24 +29,38 @@ def run(ctx):
         asg = spec.assignments(n_units)
         if kind in ("fork", "select"):
             exprs = [gen.rand_expr_flat(rng, n_units, 2, 3, 2) for _ in range(rng.randint(1, 5) if kind == "fork" else rng.randint(1, 7))]
-            prov, units, es = make_prov(I, exprs, n_units)
+            # unit identifiers and candidate LABELS of the caller's own (not the positions 0..n-1 / the default candidates 0, 1): a derived container (fork,
+            # selection) must keep them - it is queried with arrays AND with {unit key: candidate label} dictionaries, and its unit / candidate lists are compared
+            ukeys, uks = rand_keys(rng, n_units)
+            ckeys, cks = rand_ckeys(rng, 2)
+            prov, units, es = make_prov(I, exprs, n_units, keys=(None if uks == "positional" else ukeys), ckeys=(None if cks == "positional" else ckeys))
+            ctx.dist["derived_container_unit_keys=%s candidate_keys=%s" % (uks, cks)] += 1
+
+            def tab(pv, ukeys=ukeys, ckeys=ckeys, n_units=n_units, asg=asg, prov=prov):
+                t = table_of(pv, n_units)
+                td = [[bool(x) for x in np.asarray(pv.query({ukeys[u]: ckeys[a[u]] for u in range(n_units)})).tolist()] for a in asg]
+                if td != t:
+                    return dict(array_query=t, dict_query=td, note="the derived container answers a {unit key: candidate label} query differently from the array query")
+                if [str(x) for x in pv.candidates] != [str(x) for x in prov.candidates] or [str(x) for x in pv.units] != [str(x) for x in prov.units]:
+                    return dict(candidates=[str(x) for x in pv.candidates], units=[str(x) for x in pv.units], note="the derived container lost the unit keys / candidate labels")
+                return t
             base = [[spec.expr_true(e, a) for e in exprs] for a in asg]
             if kind == "fork":
                 sizes = [rng.randint(0, 3) for _ in exprs]
                 arg = sizes if rng.random() < 0.5 else np.array(sizes)
                 try:
-                    res = table_of(prov.fork(arg), n_units)
+                    res = tab(prov.fork(arg))
                 except Exception as e:  # noqa
                     res = exc_name(e)
                 want = [[x for x, s in zip(row, sizes) for _ in range(s)] for row in base]
                 mop = {"op": "fork", "sizes": sizes}
-                case = dict(kind=kind, nUnits=n_units, exprs=exprs, sizes=sizes)
+                case = dict(kind=kind, nUnits=n_units, exprs=exprs, sizes=sizes, unitKeys=[str(k) for k in ukeys], candidateKeys=[str(k) for k in ckeys])
                 mops = [mop]
                 if rng.random() < 0.4:
                     # a selection of a fork is again row-wise
                     sl = rand_slice(rng, sum(sizes))
                     try:
-                        res = table_of(prov.fork(arg)[sl], n_units)
+                        res = tab(prov.fork(arg)[sl])
                     except Exception as e:  # noqa
                         res = exc_name(e)
                     want = [row[sl] for row in want]
@@ -84,12 +98,12 @@ def run(ctx):
                     idx = [i for i, m in enumerate(mask) if m]
                     sel = np.array(mask) if rng.random() < 0.5 else list(mask)      # Sequence[bool] is part of the signature
                 try:
-                    res = table_of(prov[sel], n_units)
+                    res = tab(prov[sel])
                 except Exception as e:  # noqa
                     res = exc_name(e)
                 want = [row[sl] for row in base] if mode == "slice" else [[row[i] for i in idx] for row in base]
                 mops = [{"op": "select", "idx": [i % n for i in idx]}]        # the model is asked for the normalised positions
-                case = dict(kind=kind, nUnits=n_units, exprs=exprs, mode=mode, idx=idx)
+                case = dict(kind=kind, nUnits=n_units, exprs=exprs, mode=mode, idx=idx, unitKeys=[str(k) for k in ukeys], candidateKeys=[str(k) for k in ckeys])
                 if mode == "slice":
                     case["slice"] = slice_json(sl)
             model = ctx.model({"op": "history", "prov": {"nUnits": n_units, "exprs": exprs}, "ops": mops + [{"op": "table"}]})
